@@ -1296,7 +1296,7 @@ Expression:
         | Expression '.' T_LOCATION { 
             CALL(@1, @3, expr_location());
         }
-        | Expression '.' NonTypeId {
+        | Expression '.' Id {
           CALL(@1, @3, expr_dot($3));
         }
         | Expression '\'' {
